@@ -650,6 +650,12 @@ def r195(ctx, rep, f, ev, cg, reach):
             a = [t for t in plain[0] if t[0] == "arg"]
             ok2 = all("next(" in x[2] for x in a) and a[0][2].endswith(".2") and a[1][2].endswith(".0")
             rep.check(ok2, "R19.5", "R19.5|rdh_view|row-values", "the row shows the element's own offset (.2) and RDH (.0)", rv, "row values: %s" % [x[2][-60:] for x in a])
+    display_vs_styled(ctx, rep, f, cg)
+
+
+def display_vs_styled(ctx, rep, f, cg):
+    """the plain-text (Display) row of an RDH and of its sub-words prints the same fields with the same format specs as
+    the styled row (shared with C07: the `current :` context row of an RDH error is the Display row)"""
     # Display vs to_styled_row_view
     pairs = []
     for p in sorted(f.fns):
